@@ -532,9 +532,35 @@ pub mod lazy {
     }
 
     static ENABLED: AtomicBool = AtomicBool::new(false);
+    static POOLS: std::sync::atomic::AtomicU8 = std::sync::atomic::AtomicU8::new(ALL_POOLS);
     static ST: Mutex<Option<St>> = Mutex::new(None);
     static CV: Condvar = Condvar::new();
     thread_local! { static IN_TASK: Cell<bool> = Cell::new(false); }
+
+    pub const POOL_BEATREE: u8 = 1;
+    pub const POOL_BITBOX: u8 = 2;
+    pub const POOL_ROLLBACK: u8 = 4;
+    pub const POOL_FSYNCERS: u8 = 8;
+    pub const ALL_POOLS: u8 = 15;
+
+    /// Which parts of the sync pipeline are held back while lazy mode is on (default: all): the
+    /// tasks of the `beatree-sync`, `bitbox-sync` and `rollback-sync` pools and the fsyncer
+    /// threads. The rest runs as in a free run, so each subset is a different relative order of
+    /// the chains that precede the meta swap.
+    pub fn set_pools(mask: u8) {
+        POOLS.store(mask & ALL_POOLS, Ordering::SeqCst);
+    }
+
+    fn pool_held_back(name: Option<&str>) -> bool {
+        let mask = POOLS.load(Ordering::SeqCst);
+        match name {
+            Some(n) if n.starts_with("beatree-sync") => mask & POOL_BEATREE != 0,
+            Some(n) if n.starts_with("bitbox-sync") => mask & POOL_BITBOX != 0,
+            Some(n) if n.starts_with("rollback-sync") => mask & POOL_ROLLBACK != 0,
+            Some(n) => n.ends_with("-sync"),
+            None => false,
+        }
+    }
 
     pub fn enable(on: bool) {
         let mut g = ST.lock().unwrap();
@@ -592,7 +618,7 @@ pub mod lazy {
         // Only the run-to-completion tasks of the sync pipeline are held back; long-lived service
         // tasks (rollback reverse-delta worker, merkle workers) are driven through channels
         // rather than joined and start at once.
-        let sync_pool = std::thread::current().name().map_or(false, |n| n.ends_with("-sync"));
+        let sync_pool = pool_held_back(std::thread::current().name());
         if !sync_pool {
             if let Some(s) = g.as_mut() {
                 s.gated.remove(&id);
@@ -710,7 +736,7 @@ pub mod lazy {
 
     /// The fsyncer thread has been asked to fsync: hold it until somebody waits for the result.
     pub(crate) fn fsyncer_gate(id: usize) {
-        if !ENABLED.load(Ordering::SeqCst) {
+        if !ENABLED.load(Ordering::SeqCst) || POOLS.load(Ordering::SeqCst) & POOL_FSYNCERS == 0 {
             return;
         }
         let t0 = Instant::now();
